@@ -337,6 +337,8 @@ func rBits(b asn1.BitString) string {
 
 func call(f []string) string {
 	switch f[0] {
+	case "A1G":
+		return a1gCall(f)
 	case "A1S":
 		r, s, err := sm2.SignDataToSignDigit(hx.UnHex(f[2]))
 		if err != nil {
@@ -1278,6 +1280,11 @@ func gen(seed uint64, tier string) []string {
 		id++
 		lines = append(lines, fmt.Sprintf("HPR %d %s", id, hx.Hex(s)))
 	}
+	// encoding/asn1 into the real Go types of gmsm against the reader model on the generated schemas
+	genA1G(c, r, tier, func(name string, data []byte) {
+		id++
+		lines = append(lines, fmt.Sprintf("A1G %d %s %s", id, hx.Hex([]byte(name)), hx.Hex(data)))
+	})
 	// private scalars around the group order
 	for _, s := range []string{"fffffffeffffffffffffffffffffffff7203df6b21c6052b53bbf40939d54123", "fffffffeffffffffffffffffffffffff7203df6b21c6052b53bbf40939d54122",
 		"fffffffeffffffffffffffffffffffff7203df6b21c6052b53bbf40939d54121", "00", "01", "0000000000000000000000000000000000000000000000000000000000000000000001",
